@@ -59,7 +59,7 @@ struct UndoWorld : World {
         k.assign(K_N, 0);
         k[K_EPOCH] = kr.pick(std::vector<int64_t>{0, 1000000000LL, 2147483638LL, 1700000000LL});
         k[K_ROBUST] = kr.chance(0.1);
-        int n = (int)pr.below(pr.chance(0.5) ? 20 : 61);
+        int n = (int)pr.below(pr.chance(0.5) ? 20 : (g_tier ? 150 : 61));
         double p_rec = 0.35 + 0.45 * pr.unit(), p_seek = 0.1 + 0.2 * pr.unit();
         int naddr = 1 + (int)pr.below(NADDR);
         bool evict_mode = pr.chance(0.3); if (evict_mode) { n = 25 + (int)pr.below(36); p_rec = 0.8; p_seek = 0.1; }
